@@ -299,7 +299,7 @@ void find_command_contract(console_t *c);
 void find_command_contract(console_t *c)
 {
 	/* the table part of FIND_PRE is static state console_run has no access path to: it is asserted by the harness after the run */
-	VASSERT(con_line_off(c, c->argv[0]) >= 0 && CON_LAST_NUL(c), "C15 find_command is called with argv[0] a NUL-terminated string inside the line buffer (precondition of its contract)");
+	VASSERT(c->argv[0] == c->scratch.buf && CON_LAST_NUL(c), "C15 find_command is called with argv[0] the NUL-terminated string at the start of the line buffer (precondition of its contract)");
 	find_calls++;
 	find_at = ++seq_no;
 	int s = tbl_sentinel();
@@ -854,20 +854,21 @@ void h_tok_equiv(void)
 
 /* ================================================================================================ command table */
 
-/* a table with n registered commands whose names are arbitrary non-empty strings of at most 4 characters, sorted */
-static unsigned arbitrary_table(void)
+/*
+ * Tables of every fill.  The names of 31 commands are arbitrary non-empty strings of at most 4 characters, in
+ * ascending order (duplicates allowed); for EVERY n in 0..31 the table { first n names, sentinel, NULL... } is built
+ * and the operation is run on it.  n is enumerated by a loop rather than chosen symbolically: with a concrete n every
+ * pointer in the table is a constant, which keeps the query small (a symbolic n took > 15 minutes, measured).
+ */
+static void arbitrary_names(void)
 {
-	unsigned n = IN.ntab;
-	VASSUME(n <= TBL_SLOTS - 1);
 	for (unsigned i = 0; i < TBL_SLOTS; i++) {
 		for (unsigned j = 0; j < NNAME; j++)
 			NAMES[i][j] = j + 1 < NNAME ? (char)IN.names[i * NNAME + j] : 0;
 		VASSUME(NAMES[i][0] != 0);
 	}
-	table_of(n);
-	for (unsigned i = 0; i + 1 < TBL_SLOTS; i++)
-		VASSUME(i + 1 >= n || ref_name_cmp(NAMES[i], NAMES[i + 1]) <= 0);
-	return n;
+	for (unsigned i = 0; i + 2 < TBL_SLOTS; i++)
+		VASSUME(ref_name_cmp(NAMES[i], NAMES[i + 1]) <= 0);
 }
 
 void h_table_init(void)
@@ -882,71 +883,78 @@ void h_table_init(void)
 void h_find(void)
 {
 	VERIF_LOAD_INPUTS();
-	unsigned n = arbitrary_table();
+	arbitrary_names();
+	small_table();
 	arbitrary_console(0);
 	C.bufp = C.scratch.buf;
 	VASSUME(CON_LAST_NUL(&C));
-	C.argv[0] = C.scratch.buf + IN.argoff[0];
-	C.cmd = NULL;
+	C.argv[0] = C.scratch.buf; /* FIND_PRE: the command name is the start of the line (TOK post) */
 	struct snap s = snap_of();
-	const char *name = C.argv[0];
-	int want = ref_find(name);
+	const char *name = C.scratch.buf;
+	arbitrary_names(); /* small_table() used slot 0 */
+	for (unsigned n = 0; n < TBL_SLOTS; n++) {
+		table_of(n);
+		C.cmd = NULL;
+		int want = ref_find(name);
 
-	find_command(&C);
+		find_command(&C);
 
-	VASSERT(tbl_inv() && tbl_sentinel() == (int)n, "C15 set-up: the table built from the inputs is well formed");
-	VASSERT(C.cmd == cmd_table[want], "C15 find_command selects the first entry whose name equals argv[0] exactly, else the sentinel");
-	if (want < (int)n)
-		VASSERT(C.cmd == &POOL[want] && ref_name_cmp(name, C.cmd->name) == 0, "C15 a registered command is found by its exact name");
-	else
-		VASSERT(C.cmd == &cmd_unknown, "C15 an unknown or empty name selects the sentinel: no registered command runs");
+		VASSERT(tbl_inv() && tbl_sentinel() == (int)n, "C15 set-up: the table built from the inputs is well formed");
+		VASSERT(C.cmd == cmd_table[want], "C15 find_command selects the first entry whose name equals argv[0] exactly, else the sentinel");
+		if (want < (int)n)
+			VASSERT(C.cmd == &POOL[want] && ref_name_cmp(name, C.cmd->name) == 0, "C15 a registered command is found by its exact name");
+		else
+			VASSERT(C.cmd == &cmd_unknown, "C15 an unknown or empty name selects the sentinel: no registered command runs");
+		VCOVER(want == 30 && n == 31, "last slot of a full table");
+		VCOVER(want == (int)n && name[0] == 0, "empty line");
+		VCOVER(want == (int)n && n > 3 && name[0] == NAMES[2][0] && name[1] == NAMES[2][1] && NAMES[2][2] != 0 && name[2] == 0, "proper prefix of a name is not a match");
+		VCOVER(want < (int)n && name[3] != 0 && name[4] == 0, "four-character name");
+	}
+	C.cmd = s.cmd;
 	VASSERT(fixed_part_same(&s) && args_same(&s) && scratch_same(&s, 0, sizeof(C.scratch)) && C.bufp == s.bufp && C.pt == s.pt,
 		"C15 find_command writes only c->cmd");
-	VCOVER(want == 30 && n == 31, "last slot of a full table");
-	VCOVER(want == (int)n && name[0] == 0, "empty line");
-	VCOVER(want == (int)n && n > 3 && name[0] == NAMES[2][0] && name[1] == NAMES[2][1] && NAMES[2][2] != 0 && name[2] == 0, "proper prefix of a name is not a match");
-	VCOVER(want < (int)n && name[3] != 0 && name[4] == 0, "four-character name");
 }
 
 void h_register(void)
 {
 	VERIF_LOAD_INPUTS();
-	unsigned n = arbitrary_table();
+	arbitrary_names();
 	for (unsigned j = 0; j < NNAME; j++)
 		NEWNAME[j] = j + 1 < NNAME ? (char)IN.newname[j] : 0;
 	VASSUME(NEWNAME[0] != 0);
 	NEWCMD.name = NEWNAME;
 	NEWCMD.fn = cmd_generic;
-	/* where the statement puts it: after every name that does not compare greater */
-	unsigned p = n;
-	for (unsigned i = TBL_SLOTS; i-- > 0;)
-		if (i < n && ref_name_cmp(NAMES[i], NEWNAME) > 0)
-			p = i;
+	for (unsigned n = 0; n < TBL_SLOTS; n++) {
+		table_of(n);
+		/* where the statement puts it: after every name that does not compare greater */
+		unsigned p = n;
+		for (unsigned i = TBL_SLOTS; i-- > 0;)
+			if (i < n && ref_name_cmp(NAMES[i], NEWNAME) > 0)
+				p = i;
 
-	int r = console_register(&NEWCMD);
+		int r = console_register(&NEWCMD);
 
-	if (n == TBL_SLOTS - 1) {
-		bool same = true;
-		for (unsigned i = 0; i < TBL_SLOTS; i++)
-			same = same && cmd_table[i] == (i < n ? &POOL[i] : &cmd_unknown);
-		VASSERT(r == -1 && same, "C15 registration fails cleanly, changing nothing, when the table is full");
-	} else {
-		bool ok = true;
-		for (unsigned i = 0; i < TBL_SLOTS; i++) {
-			const console_cmd_t *want = i < p ? &POOL[i] : i == p ? &NEWCMD : i <= n ? &POOL[i - 1] : i == n + 1 ? &cmd_unknown : NULL;
-			ok = ok && cmd_table[i] == want;
+		if (n == TBL_SLOTS - 1) {
+			bool same = true;
+			for (unsigned i = 0; i < TBL_SLOTS; i++)
+				same = same && cmd_table[i] == (i < n ? &POOL[i] : &cmd_unknown);
+			VASSERT(r == -1 && same, "C15 registration fails cleanly, changing nothing, when the table is full");
+		} else {
+			bool ok = true;
+			for (unsigned i = 0; i < TBL_SLOTS; i++) {
+				const console_cmd_t *want = i < p ? &POOL[i] : i == p ? &NEWCMD : i <= n ? &POOL[i - 1] : i == n + 1 ? &cmd_unknown : NULL;
+				ok = ok && cmd_table[i] == want;
+			}
+			VASSERT(r == 0, "C15 registration succeeds while the table has a free slot");
+			VASSERT(ok, "C15 console_register inserts the command in name order, keeps every earlier registration in order and the sentinel last");
+			VASSERT(tbl_inv() && tbl_sentinel() == (int)n + 1, "C15 the table stays sorted and sentinel-terminated");
+			VASSERT(cmd_table[ref_find(NEWNAME)]->name != NULL && ref_name_cmp(cmd_table[ref_find(NEWNAME)]->name, NEWNAME) == 0,
+				"C15 the registered command is found by its exact name afterwards");
 		}
-		VASSERT(r == 0, "C15 registration succeeds while the table has a free slot");
-		VASSERT(ok, "C15 console_register inserts the command in name order, keeps every earlier registration in order and the sentinel last");
-		VASSERT(tbl_inv() && tbl_sentinel() == (int)n + 1, "C15 the table stays sorted and sentinel-terminated");
-		VASSERT(cmd_table[ref_find(NEWNAME)]->name != NULL && ref_name_cmp(cmd_table[ref_find(NEWNAME)]->name, NEWNAME) == 0,
-			"C15 the registered command is found by its exact name afterwards");
+		VCOVER(n == TBL_SLOTS - 2 && p == 0, "last free slot, insertion at the front");
+		VCOVER(n == 10 && p == 10, "insertion before the sentinel");
+		VCOVER(n > 4 && p == 2 && ref_name_cmp(NAMES[1], NEWNAME) == 0, "duplicate name");
 	}
-	VCOVER(n == TBL_SLOTS - 1, "full table");
-	VCOVER(n == TBL_SLOTS - 2 && p == 0, "last free slot, insertion at the front");
-	VCOVER(n == 10 && p == 10, "insertion before the sentinel");
-	VCOVER(n == 0, "empty table");
-	VCOVER(n > 4 && p == 2 && ref_name_cmp(NAMES[1], NEWNAME) == 0, "duplicate name");
 }
 
 /* the built-in handlers under the command contract: entered with tokenizer output, they only read the arguments and exit */
